@@ -4,6 +4,7 @@ import Storrent.Lemmas.PeerBitmapLemmas
 import Storrent.Lemmas.ChunkArith
 import Storrent.Lemmas.PeerOutLemmas
 import Storrent.Lemmas.RequestsInv
+import Storrent.Lemmas.PexEmbed
 /-
 C11 — Everything storrent sends to a peer is protocol-conformant.
 Theorems about the models of Model/{PeerOut,Requests,Pex,PeerBitmap}.lean (the repaired code:
@@ -249,6 +250,88 @@ theorem C11_pex_departures_orig_refuted : ¬ C11_pex_departures_orig := by
     ⟨[10, 0, 0, 1], 6881, 0⟩ (by decide)
   revert this
   decide
+
+/-! ### PEX at the level of peer histories -/
+
+/-- a sequence of PEX messages, each with what the remote knows just before it -/
+def annotate : List Addr → List (List PexPeer × List PexPeer) →
+    List (List Addr × List PexPeer × List PexPeer)
+  | _, [] => []
+  | rk, (a, d) :: ms => (rk, a, d) :: annotate (rkUpdate rk a d) ms
+
+theorem pex_step_rk (g : G) (op : Pex.Op) :
+    ((Pex.step g op).2 = none → (Pex.step g op).1.rk = g.rk) ∧
+    (∀ a d, (Pex.step g op).2 = some (a, d) → (Pex.step g op).1.rk = rkUpdate g.rk a d) := by
+  cases op with
+  | add p => simp [Pex.step]
+  | del p => simp [Pex.step]
+  | send ok =>
+    simp only [Pex.step]
+    rcases Pex.send g.st ok with ⟨s', m⟩
+    cases m with
+    | none => simp
+    | some ad => obtain ⟨a, d⟩ := ad; simp
+
+theorem pex_run_annotate : ∀ (pops : List Pex.Op) (g : G),
+    (Pex.run g pops).2 = annotate g.rk ((Pex.run g pops).2.map (·.2))
+  | [], g => by simp [Pex.run, annotate]
+  | op :: pops, g => by
+    have ih := pex_run_annotate pops (Pex.step g op).1
+    have hrk := pex_step_rk g op
+    simp only [Pex.run]
+    cases hm : (Pex.step g op).2 with
+    | none =>
+      show (Pex.run (Pex.step g op).1 pops).2 =
+        annotate g.rk ((Pex.run (Pex.step g op).1 pops).2.map (·.2))
+      rw [← hrk.1 hm]
+      exact ih
+    | some ad =>
+      obtain ⟨a, d⟩ := ad
+      simp only [List.map_cons, annotate]
+      rw [← hrk.2 a d hm, ← ih]
+
+/-- **C11_pex_sound_peer.**  `C11_pex_sound` for the peer itself: for every history of peer
+    ops (messages, scheduler commands incl. `PeerPex` additions/removals, ticks, congestion,
+    dead writer, drains) from a peer whose `pexState` is empty, every PEX message that reaches
+    the writer queue — in queue order, `remoteKnows` being what the earlier ones told —
+    drops only known addresses, announces no known address, and has no duplicates / at most
+    50 entries per list.  (By simulation: the peer's handlers drive `pexState` exactly as a
+    history of the PEX machine does, `run_sim`.) -/
+theorem C11_pex_sound_peer (p0 : Peer) (ops : List PeerOut.Op) (h0 : p0.pex = {}) :
+    ∀ x, x ∈ annotate [] (pexMsgs (trace p0 ops)) → PexMsgOk x.1 x.2.1 x.2.2 := by
+  obtain ⟨pops, _, hm⟩ := run_sim ops p0 ({} : G) (by rw [h0])
+  intro x hx
+  rw [← hm, ← pex_run_annotate pops {}] at hx
+  exact pex_run_ok pops {} PInv_init x hx
+
+/-- and the peer's `pexState` after any history is one the PEX machine reaches, so
+    `remoteKnows = sent ∪ pendingDel` (`C11_pex_remote_knows`) and the departure theorem
+    apply to it -/
+theorem C11_pex_embedding (p0 : Peer) (ops : List PeerOut.Op) (h0 : p0.pex = {}) :
+    ∃ pops : List Pex.Op, (Pex.run {} pops).1.st = (PeerOut.run p0 ops).pex ∧
+      (Pex.run {} pops).2 = annotate [] (pexMsgs (trace p0 ops)) := by
+  obtain ⟨pops, hs, hm⟩ := run_sim ops p0 ({} : G) (by rw [h0])
+  exact ⟨pops, hs, by rw [pex_run_annotate pops {}, hm]⟩
+
+-- non-vacuity: a PEX history with an arrival, a failed and a successful tick, a departure
+example :
+    (Pex.run {} [.add ⟨[10, 0, 0, 1], 6881, 0⟩, .send false, .send true,
+                 .del ⟨[10, 0, 0, 1], 6881, 0⟩, .send true]).2 =
+      [([], [⟨[10, 0, 0, 1], 6881, 0⟩], []),
+       ([([10, 0, 0, 1], 6881)], [], [⟨[10, 0, 0, 1], 6881, 0⟩])] := by decide
+
+-- non-vacuity of `C11_pex_departures` (2): a pending departure among the first 50·1, one tick
+example :
+    let g : G := (Pex.run {} [.add ⟨[10, 0, 0, 1], 6881, 0⟩, .send true,
+                              .del ⟨[10, 0, 0, 1], 6881, 0⟩]).1
+    ([10, 0, 0, 1], 6881) ∈ addrs (g.st.pendingDel.take (50 * [Pex.Op.send true].count (.send true))) := by
+  decide
+
+-- non-vacuity at peer level: PeerPex + tick through the peer's handlers
+example :
+    pexMsgs (trace { pexExt := 1 } [.ePex true [⟨[10, 0, 0, 1], 6881, 0⟩], .sendPex,
+      .ePex false [⟨[10, 0, 0, 1], 6881, 0⟩], .sendPex]) =
+      [([⟨[10, 0, 0, 1], 6881, 0⟩], []), ([], [⟨[10, 0, 0, 1], 6881, 0⟩])] := by decide
 
 /-! ## The initial advertisement -/
 
@@ -585,6 +668,43 @@ theorem C11_requests_inv :
     · exact Requests.RInv_clear_false h
     · exact Requests.RInv_clear_both rs
 
+/-- **C11_requests_no_panic.**  From the empty structure, no history of `Enqueue`,
+    `Dequeue` (as `maybeRequest` uses it: non-empty queue, then `EnqueueRequest` of the request
+    taken, or nothing), `Del`, `DelRequested`, `Cancel`, `Clear(true/false)`, `Expire` (any
+    thresholds) and ageing ever panics ("Requests is broken!", "Incorrect use of
+    Requests.EnqueueRequest", "Couldn't delete request", index out of range), and the
+    representation invariant holds at the end. -/
+theorem C11_requests_no_panic (ops : List Requests.ROp) :
+    ∃ rs, Requests.rrun {} ops = some rs ∧ Requests.RInv rs :=
+  Requests.rrun_inv ops {} Requests.RInv_empty
+
+-- non-vacuity: Clear(false) with an unsent request in the queue, then Del of that chunk
+-- (the very sequence that panics if Clear(false) keeps the stale membership bits)
+example :
+    ((Requests.rrun {} [.enqueue 3, .enqueue 4, .enqueue 5, .dequeue true, .clear false, .del 4,
+        .cancel 3, .expire 0 0, .expire 0 0]).map
+      (fun rs => (rs.queue.map (·.index), rs.requested.map (·.index)))) = some ([], []) := by
+  decide
+
+/-- `C11_request_no_dup` for the peers `New` creates (nothing queued, nothing sent): no
+    hypothesis on the state is left; `< 2^32` only says that chunk numbers are Go `uint32`s. -/
+theorem C11_request_no_dup_new (p0 : Peer) (ops : List PeerOut.Op) (hg : 16384 ≤ p0.ps.toNat)
+    (hnew : p0.requests.queue = [] ∧ p0.requests.requested = [] ∧ p0.requests.member = fun _ => false)
+    (hops : ∀ op, op ∈ ops → ∀ ch, ch ∈ op.chunks → ch < 4294967296) :
+    ∀ e, e ∈ trace p0 ops → ∀ i b l, e.msg = .request i b l →
+      ∀ r, r ∈ e.pre.requests.requested → ∀ iu bu,
+        fromChunk e.pre.ps (UInt32.ofNat r.index) = some (iu, bu) →
+        ¬ (iu.toNat = i ∧ bu.toNat = b) := by
+  have hinv : Requests.RInv p0.requests := by
+    obtain ⟨h1, h2, h3⟩ := hnew
+    constructor
+    · simp [Requests.idx, h1, h2]
+    · intro c; simp [Requests.idx, h1, h2, h3]
+  refine C11_request_no_dup p0 ops hg hinv ?_ hops
+  intro r hr
+  rw [hnew.1, hnew.2.1] at hr
+  cases hr
+
 /-- the unrepaired `fromChunk` gives a wrong offset for chunk 2^18 with 48 KiB pieces -/
 def C11_request_wf_orig : Prop :=
   ∀ (ps : UInt32) (c : Nat), 16384 ≤ ps.toNat → ps.toNat % 16384 = 0 → c < 4294967296 →
@@ -604,6 +724,23 @@ example :
       [.request 0 0 16384, .request 0 16384 16384, .cancel 0 16384 16384, .have 2] := by decide
 
 example : Requests.RInv ({} : Peer).requests := Requests.RInv_empty
+
+-- the hypotheses of `C11_request_wf` / `C11_request_no_dup` / `C11_have_range` hold for the
+-- history above (100000 bytes = 7 blocks, 4 pieces of 32 KiB)
+example : ∀ op, op ∈ [PeerOut.Op.eRequest [0, 1, 6] (some 0), .eCancel 1, .eHave 2 true] →
+    ∀ ch, ch ∈ op.chunks → ch < nChunks 100000 := by decide
+example : ∀ i h, PeerOut.Op.eHave i h ∈
+    [PeerOut.Op.eRequest [0, 1, 6] (some 0), .eCancel 1, .eHave 2 true] →
+    i < numPiecesOf 32768 100000 := by
+  intro i h hm
+  simp only [List.mem_cons, List.not_mem_nil, or_false, reduceCtorEq, false_or,
+    PeerOut.Op.eHave.injEq] at hm
+  rw [hm.1]; decide
+-- a request is emitted at the depth limit boundary: reqQ = 2, two outstanding, third waits
+example :
+    (trace { ps := 32768, length := 100000, rbitmap := some [0xF0], unchoked := true, reqQ := 2 }
+      [.eRequest [0, 1, 2] none]).map (·.msg) = [.request 0 0 16384, .request 0 16384 16384] := by
+  decide
 
 example : GeomOK 32768 100000 := ⟨by decide, by decide, by decide, by decide⟩
 
